@@ -408,10 +408,12 @@ def main():
                     want_set = sorted(tuple(w for _, w in q[1 + 6 * j: 7 + 6 * j]) for j in range(k))
                     got_l = [[(g[1] if g[0] != "num" else int(g[1])) for g in mine[1 + 6 * j: 7 + 6 * j]] for j in range(k)]
                     for t in got_l:
-                        if t[1:] and t[4] is True and any(w[0] == -1 and w[1] == t[1] for w in want_set):
+                        if t[1:] and t[4] is True and any(w[0] == -1 and re.sub(r"[\t\r\n]", " ", w[1]) == re.sub(r"[\t\r\n]", " ", t[1]) for w in want_set):
                             t[0] = -1
                     got_set = sorted(tuple(t) for t in got_l)
-                    if want_set == got_set:
+                    # the shell prints TAB/CR/LF inside a string-value as blanks
+                    nrm = lambda ts: sorted(tuple(re.sub(r"[\t\r\n]", " ", x) if isinstance(x, str) else x for x in t) for t in ts)
+                    if want_set == got_set or nrm(want_set) == nrm(got_set):
                         stats["agree"] += 1
                         stats["agree:" + f[0][:3]] += 1
                     else:
@@ -471,6 +473,16 @@ def main():
                     stats["agree"] += 1
                     stats["agree:" + f[0][:3]] += 1
                 else:
+                    if re.search(r"(^|;)1,c,", f[2]):
+                        # a comment beside the document element: the shell's document order for it differs (see the notes
+                        # at the top); only element-only comparisons are meaningful on such documents
+                        stats["explained:top-level-comment"] += 1
+                        continue
+                    if "substring" in unhx(f[5]) and "0.49999999999999994" in unhx(f[5]):
+                        # libxml2 rounds with floor(x + 0.5), which is 1 for the largest double below 0.5 (the defect
+                        # repaired in the package by fafb11c); XPath's round() gives 0
+                        stats["explained:libxml2-rounds-with-floor(x+0.5)"] += 1
+                        continue
                     stats["DISAGREE"] += 1
                     bad.append((f[0], unhx(f[5]), f[3], f[2][:200], f[4], why))
     for k in sorted(stats):
